@@ -20,60 +20,118 @@ namespace C17
 open Generated.C17 C17Num C17Film
 open Model.C17 (M22 prod)
 
+/-- unfold every generated definition AND its hand-model counterpart (so the proofs survive the translator's fallback form
+`gen := Model.gen`), and read the numeric literals of the source (`Num.ofInt`, `Num.ofFrac`) as field elements -/
+macro "c17_unfold" : tactic => `(tactic| simp only [fresnelRs, fresnelTs, fresnelRp, fresnelTp, snellSin, brewsterY, brewsterX,
+  criticalSin, betaP, betaS, charP, charS, amatP, amatPTerm1, amatPTerm2, amatPTerm4, amatS, amatSTerm1, amatSTerm2, amatSTerm4,
+  rtot, ttot, Model.C17.fresnelRs, Model.C17.fresnelTs, Model.C17.fresnelRp, Model.C17.fresnelTp, Model.C17.snellSin,
+  Model.C17.beta, Model.C17.layerP, Model.C17.layerS, Model.C17.amatP, Model.C17.amatS, Model.C17.rtot, Model.C17.ttot,
+  M22.mul, M22.smul, M22.one, ofInt_eq, ofFrac_eq])
+
 /-! ## translated obligations: the generated formulas equal the hand model, for all inputs -/
 section gen
 variable {K : Type} [Field K]
 
 theorem gen_fresnel_rs (n0 n1 c0 c1 : K) : fresnelRs n0 n1 c0 c1 = Model.C17.fresnelRs n0 n1 c0 c1 := by
-  simp only [fresnelRs, Model.C17.fresnelRs, ofInt_eq] <;> ring
+  c17_unfold <;> push_cast <;> ring
 
 theorem gen_fresnel_ts (n0 n1 c0 c1 : K) : fresnelTs n0 n1 c0 c1 = Model.C17.fresnelTs n0 n1 c0 c1 := by
-  simp only [fresnelTs, Model.C17.fresnelTs, ofInt_eq] <;> ring
+  c17_unfold <;> push_cast <;> ring
 
 theorem gen_fresnel_rp (n0 n1 c0 c1 : K) : fresnelRp n0 n1 c0 c1 = Model.C17.fresnelRp n0 n1 c0 c1 := by
-  simp only [fresnelRp, Model.C17.fresnelRp, ofInt_eq] <;> ring
+  c17_unfold <;> push_cast <;> ring
 
 theorem gen_fresnel_tp (n0 n1 c0 c1 : K) : fresnelTp n0 n1 c0 c1 = Model.C17.fresnelTp n0 n1 c0 c1 := by
-  simp only [fresnelTp, Model.C17.fresnelTp, ofInt_eq] <;> ring
+  c17_unfold <;> push_cast <;> ring
 
 /-- Snell's law, Brewster's `tan θ_B = n₁/n₀`, critical `sin θ_c = n₀/n₁` as the source writes them -/
 theorem gen_angles (n0 n1 s0 : K) :
     snellSin n0 n1 s0 = Model.C17.snellSin n0 n1 s0 ∧ brewsterY n0 n1 = n1 ∧ brewsterX n0 n1 = n0 ∧
     criticalSin n0 n1 = n0 / n1 := by
-  refine ⟨?_, ?_, ?_, ?_⟩ <;> simp only [snellSin, Model.C17.snellSin, brewsterY, brewsterX, criticalSin] <;> ring
+  refine ⟨?_, ?_, ?_, ?_⟩ <;> c17_unfold <;> ring
 
 theorem gen_beta (pi lam d n cost : K) :
     betaP pi lam d n cost = Model.C17.beta pi lam d n cost ∧ betaS pi lam d n cost = Model.C17.beta pi lam d n cost := by
-  constructor <;> simp only [betaP, betaS, Model.C17.beta, ofInt_eq] <;> ring
+  constructor <;> c17_unfold <;> push_cast <;> ring
 
 theorem gen_charP (mI sinb cosb cost n : K) : charP mI sinb cosb cost n = Model.C17.layerP mI sinb cosb cost n := by
-  apply M22.ext' <;> simp only [charP, Model.C17.layerP, ofInt_eq] <;> ring
+  apply M22.ext' <;> c17_unfold <;> push_cast <;> ring
 
 theorem gen_charS (mI sinb cosb cost n : K) : charS mI sinb cosb cost n = Model.C17.layerS mI sinb cosb cost n := by
-  apply M22.ext' <;> simp only [charS, Model.C17.layerS, ofInt_eq] <;> ring
+  apply M22.ext' <;> c17_unfold <;> push_cast <;> ring
 
 theorem gen_amatP (n0 cost0 : K) (M : M22 K) (ne coste : K) :
     amatP n0 cost0 M ne coste = Model.C17.amatP n0 cost0 M ne coste := by
-  apply M22.ext' <;>
-    simp only [amatP, amatPTerm1, amatPTerm2, amatPTerm4, Model.C17.amatP, M22.mul, M22.smul, ofInt_eq] <;> ring
+  apply M22.ext' <;> c17_unfold <;> push_cast <;> ring
 
 theorem gen_amatS (n0 cost0 : K) (M : M22 K) (ne coste : K) :
     amatS n0 cost0 M ne coste = Model.C17.amatS n0 cost0 M ne coste := by
-  apply M22.ext' <;>
-    simp only [amatS, amatSTerm1, amatSTerm2, amatSTerm4, Model.C17.amatS, M22.mul, M22.smul, ofInt_eq] <;> ring
+  apply M22.ext' <;> c17_unfold <;> push_cast <;> ring
 
 theorem gen_rtot_ttot (A : M22 K) : rtot A = Model.C17.rtot A ∧ ttot A = Model.C17.ttot A := by
-  constructor <;> simp only [rtot, ttot, Model.C17.rtot, Model.C17.ttot, ofInt_eq] <;> ring
+  constructor <;> c17_unfold <;> push_cast <;> ring
 
 end gen
 
-/-- wiring of `multilayer_stack_rt` recognised in the AST (an unrecognised shape makes the item `untranslatable` and widens
-the correspondence instead): angles by Snell from the ambient medium, degrees→radians,
-argument order of the layer call, exit medium = last layer, polarisation dispatch, `r = rtot A`, `t = ttot A` -/
-theorem gen_structure :
-    stackAnglesFromAmbientBySnell = true ∧ stackAoiDegreesToRadians = true ∧ stackLayerArgsInOrder = true ∧
-    stackExitMediumIsLastLayer = true ∧ stackPolarizationDispatch = true ∧
-    stackIndexThicknessColumnsAndTotals = true := by decide
+/-! ## the wiring of `multilayer_stack_rt`, translated call site by call site
+
+Each definition `stack*` places its arguments exactly as the source places them at the corresponding call
+(`snell_aor(ambient_index, indices[i], aoi, degrees=False)`, `fn1(wavelength, thicknesses[i], indices[i], angles[i])`,
+`fn2(ambient_index, aoi, Mjs, indices[-1], angles[-1])`, `r = rtot(A)`, `t = ttot(A)`), for the scalar and the batched
+branch alike (they must agree to be translated at all). -/
+section wiring
+variable {K : Type} [Field K]
+
+/-- angles: Snell's law from the AMBIENT medium into layer `j`, and the incidence angle is converted from degrees once -/
+theorem gen_stack_snell (n0 s0 nj : K) :
+    stackSnellSin n0 s0 nj = Model.C17.snellSin n0 nj s0 ∧ stackAoiConvertedOnce = true := by
+  refine ⟨?_, by decide⟩
+  simp only [stackSnellSin]; c17_unfold
+
+/-- layer `j`: phase thickness from (wavelength, its thickness, its index, its angle), matrix of the right polarisation -/
+theorem gen_stack_layer (mI sinb cosb pi lam d n cost : K) :
+    (stackBetaS pi lam d n cost = Model.C17.beta pi lam d n cost ∧
+     stackLayerS mI sinb cosb cost d n = Model.C17.layerS mI sinb cosb cost n) ∧
+    (stackBetaP pi lam d n cost = Model.C17.beta pi lam d n cost ∧
+     stackLayerP mI sinb cosb cost d n = Model.C17.layerP mI sinb cosb cost n) := by
+  refine ⟨⟨?_, ?_⟩, ⟨?_, ?_⟩⟩ <;> simp only [stackBetaS, stackBetaP, stackLayerS, stackLayerP]
+  · exact (gen_beta pi lam d n cost).2
+  · exact gen_charS mI sinb cosb cost n
+  · exact (gen_beta pi lam d n cost).1
+  · exact gen_charP mI sinb cosb cost n
+
+/-- `A` is built from the ambient medium and the LAST layer (index and angle) as exit medium -/
+theorem gen_stack_amat (n0 c0 : K) (M : M22 K) (nFirst cFirst nLast cLast : K) :
+    stackAmatS n0 c0 M nFirst cFirst nLast cLast = Model.C17.amatS n0 c0 M nLast cLast ∧
+    stackAmatP n0 c0 M nFirst cFirst nLast cLast = Model.C17.amatP n0 c0 M nLast cLast := by
+  constructor <;> simp only [stackAmatS, stackAmatP]
+  · exact gen_amatS n0 c0 M nLast cLast
+  · exact gen_amatP n0 c0 M nLast cLast
+
+/-- the function returns `(rtot A, ttot A)`; index / thickness are columns 0 / 1 of the stack -/
+theorem gen_stack_totals (A : M22 K) :
+    stackReturn A = (Model.C17.rtot A, Model.C17.ttot A) ∧ stackIndexColumn = 0 ∧ stackThicknessColumn = 1 := by
+  refine ⟨?_, by decide, by decide⟩
+  simp only [stackReturn, (gen_rtot_ttot A).1, (gen_rtot_ttot A).2]
+
+/-- default arguments: normal incidence from vacuum; degrees are the default unit of every angle argument / result -/
+theorem gen_defaults :
+    (stackDefaultAoi : K) = 0 ∧ (stackDefaultAmbient : K) = 1 ∧
+    snellDegreesDefault = true ∧ brewsterDegDefault = true ∧ criticalDegDefault = true := by
+  refine ⟨?_, ?_, by decide, by decide, by decide⟩ <;> simp [stackDefaultAoi, stackDefaultAmbient]
+
+/-- unit conversions of the `degrees` / `deg` flags: `θ·π/180` going in, `·180/π` coming out -/
+theorem gen_units (pi x : K) :
+    snellAngleFromDegrees pi x = x * pi / 180 ∧ brewsterToDegrees pi x = x * 180 / pi ∧
+    criticalToDegrees pi x = x * 180 / pi := by
+  refine ⟨?_, ?_, ?_⟩ <;> simp only [snellAngleFromDegrees, brewsterToDegrees, criticalToDegrees, ofInt_eq, ofFrac_eq] <;>
+    push_cast <;> ring
+
+end wiring
+
+/-- the polarisation string is lower-cased before the dispatch (three-valued recogniser: an unrecognised normalisation makes
+the item `untranslatable`; upper-case inputs are exercised on the real code) -/
+theorem gen_structure : stackPolarizationLowercased = true := by decide
 
 /-! ## Fresnel coefficients (over the generated formulas) -/
 section fresnel
@@ -84,7 +142,7 @@ theorem fresnel_energy_s (n0 n1 c0 c1 : K) (h0 : n0 * c0 ≠ 0) (hd : n0 * c0 + 
     fresnelRs n0 n1 c0 c1 ^ 2 + (n1 * c1) / (n0 * c0) * fresnelTs n0 n1 c0 c1 ^ 2 = 1 := by
   have hn : n0 ≠ 0 := left_ne_zero_of_mul h0
   have hc : c0 ≠ 0 := right_ne_zero_of_mul h0
-  simp only [fresnelRs, fresnelTs, ofInt_eq]
+  c17_unfold
   push_cast
   field_simp
   ring
@@ -94,7 +152,7 @@ theorem fresnel_energy_p (n0 n1 c0 c1 : K) (h0 : n0 * c0 ≠ 0) (hd : n0 * c1 + 
     fresnelRp n0 n1 c0 c1 ^ 2 + (n1 * c1) / (n0 * c0) * fresnelTp n0 n1 c0 c1 ^ 2 = 1 := by
   have hn : n0 ≠ 0 := left_ne_zero_of_mul h0
   have hc : c0 ≠ 0 := right_ne_zero_of_mul h0
-  simp only [fresnelRp, fresnelTp, ofInt_eq]
+  c17_unfold
   push_cast
   field_simp
   ring
@@ -103,13 +161,13 @@ theorem fresnel_energy_p (n0 n1 c0 c1 : K) (h0 : n0 * c0 ≠ 0) (hd : n0 * c1 + 
 theorem fresnel_continuity (n0 n1 c0 c1 : K) (hs : n0 * c0 + n1 * c1 ≠ 0) (hp : n0 * c1 + n1 * c0 ≠ 0) :
     1 + fresnelRs n0 n1 c0 c1 = fresnelTs n0 n1 c0 c1 ∧
     (1 + fresnelRp n0 n1 c0 c1) * c0 = fresnelTp n0 n1 c0 c1 * c1 := by
-  constructor <;> simp only [fresnelRs, fresnelTs, fresnelRp, fresnelTp, ofInt_eq] <;>
+  constructor <;> c17_unfold <;>
     push_cast <;> field_simp <;> ring
 
 /-- at normal incidence the two polarisations coincide -/
 theorem fresnel_normal_incidence (n0 n1 : K) :
     fresnelRs n0 n1 1 1 = fresnelRp n0 n1 1 1 ∧ fresnelTs n0 n1 1 1 = fresnelTp n0 n1 1 1 := by
-  constructor <;> simp only [fresnelRs, fresnelTs, fresnelRp, fresnelTp, ofInt_eq, mul_one] <;> ring
+  constructor <;> c17_unfold <;> simp only [mul_one] <;> ring
 
 end fresnel
 
@@ -126,11 +184,11 @@ theorem brewster_zero (n0 n1 c0 s0 c1 s1 : ℝ) (hn1 : n1 ≠ 0)
     (h0 : c0 ^ 2 + s0 ^ 2 = 1) (h1 : c1 ^ 2 + s1 ^ 2 = 1) (hs0 : 0 ≤ s0) (hc1 : 0 ≤ c1)
     (snell : s1 = snellSin n0 n1 s0) (brewster : s0 * brewsterX n0 n1 = c0 * brewsterY n0 n1) :
     fresnelRp n0 n1 c0 c1 = 0 := by
-  simp only [snellSin, brewsterX, brewsterY] at snell brewster
+  simp only [snellSin, brewsterX, brewsterY, Model.C17.snellSin] at snell brewster
   have e1 : s1 = c0 := by rw [snell]; field_simp; linarith
   have e2 : c1 ^ 2 = s0 ^ 2 := by rw [e1] at h1; linarith
   have e3 : c1 = s0 := (sq_eq_sq₀ hc1 hs0).mp e2
-  simp only [fresnelRp, e3]
+  c17_unfold; simp only [e3]
   rw [div_eq_zero_iff]; left; linarith
 
 /-! ## a single interface as a stack -/
@@ -147,7 +205,7 @@ theorem single_interface_eq_fresnel_s (n0 n1 c0 c1 : K) (h0 : n0 * c0 ≠ 0) (hd
     rw [gen_amatS]; simp only [Model.C17.amatS, M22.mul, M22.smul, M22.one, ofInt_eq]; push_cast; field_simp; ring
   have ec : (amatS n0 c0 (M22.one) n1 c1).c = (n0 * c0 - n1 * c1) / (2 * n0 * c0) := by
     rw [gen_amatS]; simp only [Model.C17.amatS, M22.mul, M22.smul, M22.one, ofInt_eq]; push_cast; field_simp; ring
-  constructor <;> simp only [rtot, ttot, fresnelRs, fresnelTs, ea, ec, ofInt_eq] <;> push_cast <;> field_simp
+  constructor <;> simp only [rtot, ttot, Model.C17.rtot, Model.C17.ttot, ea, ec] <;> c17_unfold <;> push_cast <;> field_simp
 
 theorem single_interface_eq_fresnel_p (n0 n1 c0 c1 : K) (h0 : n0 * c0 ≠ 0) (hd : n0 * c1 + n1 * c0 ≠ 0) :
     rtot (amatP n0 c0 (M22.one) n1 c1) = fresnelRp n0 n1 c0 c1 ∧
@@ -158,7 +216,7 @@ theorem single_interface_eq_fresnel_p (n0 n1 c0 c1 : K) (h0 : n0 * c0 ≠ 0) (hd
     rw [gen_amatP]; simp only [Model.C17.amatP, M22.mul, M22.smul, M22.one, ofInt_eq]; push_cast; field_simp; ring
   have ec : (amatP n0 c0 (M22.one) n1 c1).c = (n0 * c1 - n1 * c0) / (2 * n0 * c0) := by
     rw [gen_amatP]; simp only [Model.C17.amatP, M22.mul, M22.smul, M22.one, ofInt_eq]; push_cast; field_simp; ring
-  constructor <;> simp only [rtot, ttot, fresnelRp, fresnelTp, ea, ec, ofInt_eq] <;> push_cast <;> field_simp
+  constructor <;> simp only [rtot, ttot, Model.C17.rtot, Model.C17.ttot, ea, ec] <;> c17_unfold <;> push_cast <;> field_simp
 
 /-- the code always uses the last layer as the exit medium: that layer's own characteristic matrix only multiplies
 `A` by the phase `cos β - i sin β`, whatever precedes it -/
@@ -186,59 +244,66 @@ theorem rtot_ttot_smul (k : K) (hk : k ≠ 0) (A : M22 K) :
     · field_simp
 
 /-- one layer of ANY thickness on a substrate of the same index (how a single interface is written as a stack):
-`r` is the Fresnel `r`, `t` is the Fresnel `t` times the unit phase `cos β + i sin β` -/
+`r` is the Fresnel `r`, `t` is the Fresnel `t` times the phase `cos β + i sin β`, which has unit modulus (third conjunct:
+its product with `cos β - i sin β` is 1) -/
 theorem single_layer_eq_fresnel_s (mI sb cb n0 n1 c0 c1 : K) (hI : mI ^ 2 = -1) (hb : sb ^ 2 + cb ^ 2 = 1)
     (h0 : n0 * c0 ≠ 0) (h1 : n1 ≠ 0) (hc1 : c1 ≠ 0) (hd : n0 * c0 + n1 * c1 ≠ 0) :
     rtot (amatS n0 c0 (prod [charS mI sb cb c1 n1]) n1 c1) = fresnelRs n0 n1 c0 c1 ∧
-    ttot (amatS n0 c0 (prod [charS mI sb cb c1 n1]) n1 c1) * (cb + mI * sb) = fresnelTs n0 n1 c0 c1 := by
+    ttot (amatS n0 c0 (prod [charS mI sb cb c1 n1]) n1 c1) * (cb + mI * sb) = fresnelTs n0 n1 c0 c1 ∧
+    (cb + mI * sb) * (cb - mI * sb) = 1 := by
+  have hunit : (cb + mI * sb) * (cb - mI * sb) = 1 := by linear_combination hb - sb ^ 2 * hI
   have hk : cb + mI * sb ≠ 0 := by
     intro h
-    have : (cb + mI * sb) * (cb - mI * sb) = 1 := by linear_combination hb - sb ^ 2 * hI
+    have := hunit
     rw [h, zero_mul] at this; exact zero_ne_one this
   have e : prod [charS mI sb cb c1 n1] = (M22.one : M22 K).mul (charS mI sb cb c1 n1) := by
     rw [prod_singleton, m_one_mul]
   obtain ⟨hr, ht⟩ := single_interface_eq_fresnel_s n0 n1 c0 c1 h0 hd
   obtain ⟨kr, kt⟩ := rtot_ttot_smul (cb + mI * sb) hk (amatS n0 c0 M22.one n1 c1)
   rw [e, exit_layer_phase_s mI sb cb n0 c0 n1 c1 _ h1 hc1, kr, kt]
-  exact ⟨hr, ht⟩
+  exact ⟨hr, ht, hunit⟩
 
 theorem single_layer_eq_fresnel_p (mI sb cb n0 n1 c0 c1 : K) (hI : mI ^ 2 = -1) (hb : sb ^ 2 + cb ^ 2 = 1)
     (h0 : n0 * c0 ≠ 0) (h1 : n1 ≠ 0) (hc1 : c1 ≠ 0) (hd : n0 * c1 + n1 * c0 ≠ 0) :
     rtot (amatP n0 c0 (prod [charP mI sb cb c1 n1]) n1 c1) = fresnelRp n0 n1 c0 c1 ∧
-    ttot (amatP n0 c0 (prod [charP mI sb cb c1 n1]) n1 c1) * (cb + mI * sb) = fresnelTp n0 n1 c0 c1 := by
+    ttot (amatP n0 c0 (prod [charP mI sb cb c1 n1]) n1 c1) * (cb + mI * sb) = fresnelTp n0 n1 c0 c1 ∧
+    (cb + mI * sb) * (cb - mI * sb) = 1 := by
+  have hunit : (cb + mI * sb) * (cb - mI * sb) = 1 := by linear_combination hb - sb ^ 2 * hI
   have hk : cb + mI * sb ≠ 0 := by
     intro h
-    have : (cb + mI * sb) * (cb - mI * sb) = 1 := by linear_combination hb - sb ^ 2 * hI
+    have := hunit
     rw [h, zero_mul] at this; exact zero_ne_one this
   have e : prod [charP mI sb cb c1 n1] = (M22.one : M22 K).mul (charP mI sb cb c1 n1) := by
     rw [prod_singleton, m_one_mul]
   obtain ⟨hr, ht⟩ := single_interface_eq_fresnel_p n0 n1 c0 c1 h0 hd
   obtain ⟨kr, kt⟩ := rtot_ttot_smul (cb + mI * sb) hk (amatP n0 c0 M22.one n1 c1)
   rw [e, exit_layer_phase_p mI sb cb n0 c0 n1 c1 _ h1 hc1, kr, kt]
-  exact ⟨hr, ht⟩
+  exact ⟨hr, ht, hunit⟩
 
 /-! ## zero-thickness and half-wave layers -/
 
 /-- `d = 0` gives `β = 0` -/
 theorem beta_zero_thickness (pi lam n cost : K) : betaP pi lam 0 n cost = 0 ∧ betaS pi lam 0 n cost = 0 := by
-  constructor <;> simp only [betaP, betaS, ofInt_eq] <;> ring
+  constructor <;> c17_unfold <;> push_cast <;> ring
 
-/-- `β = 0` (`sin β = 0`, `cos β = 1`): the characteristic matrix is the identity, so a zero-thickness layer
-anywhere in a stack of any depth changes nothing -/
+/-- `β = 0` (`sin β = 0`, `cos β = 1`): the characteristic matrix is the identity, so a zero-thickness layer anywhere in the
+PRODUCT of a stack of any depth changes nothing.  (The exit medium `(n_e, cos θ_e)` of `A` is held fixed: in
+`multilayer_stack_rt` the exit medium is the last layer, so a layer appended AFTER the last one changes the exit medium — that
+case is not an instance of this theorem, and the harness inserts at interior positions only.) -/
 theorem zero_thickness_identity (mI cost n : K) (xs ys : List (M22 K)) :
     prod (xs ++ charS mI 0 1 cost n :: ys) = prod (xs ++ ys) ∧
     prod (xs ++ charP mI 0 1 cost n :: ys) = prod (xs ++ ys) := by
   have es : charS mI 0 1 cost n = (M22.one : M22 K) := by
-    apply M22.ext' <;> simp [charS, M22.one]
+    apply M22.ext' <;> simp [charS, Model.C17.layerS, M22.one]
   have ep : charP mI 0 1 cost n = (M22.one : M22 K) := by
-    apply M22.ext' <;> simp [charP, M22.one]
+    apply M22.ext' <;> simp [charP, Model.C17.layerP, M22.one]
   rw [es, ep]
   simp only [prod_append, prod_cons, m_one_mul, and_self]
 
 /-- optical thickness `n d cos θ = λ/2` gives `β = π` -/
 theorem beta_half_wave (pi lam d n cost : K) (hl : lam ≠ 0) (h : 2 * (n * d * cost) = lam) :
     betaP pi lam d n cost = pi ∧ betaS pi lam d n cost = pi := by
-  constructor <;> simp only [betaP, betaS, ofInt_eq] <;> push_cast <;> field_simp <;> linear_combination pi * h
+  constructor <;> c17_unfold <;> push_cast <;> field_simp <;> linear_combination pi * h
 
 /-- `β = π` (`sin β = 0`, `cos β = -1`): the layer is `-1`, so an absentee layer anywhere in a stack of any depth
 leaves `r` unchanged and flips the sign of `t`; reflectance and transmittance are unchanged -/
@@ -248,9 +313,9 @@ theorem halfwave_absentee (mI cost n n0 c0 ne ce : K) (xs ys : List (M22 K)) :
     (rtot (amatP n0 c0 (prod (xs ++ charP mI 0 (-1) cost n :: ys)) ne ce) = rtot (amatP n0 c0 (prod (xs ++ ys)) ne ce) ∧
      ttot (amatP n0 c0 (prod (xs ++ charP mI 0 (-1) cost n :: ys)) ne ce) = -ttot (amatP n0 c0 (prod (xs ++ ys)) ne ce)) := by
   have es : charS mI 0 (-1) cost n = M22.smul (-1) (M22.one : M22 K) := by
-    apply M22.ext' <;> simp [charS, M22.one, M22.smul]
+    apply M22.ext' <;> simp [charS, Model.C17.layerS, M22.one, M22.smul]
   have ep : charP mI 0 (-1) cost n = M22.smul (-1) (M22.one : M22 K) := by
-    apply M22.ext' <;> simp [charP, M22.one, M22.smul]
+    apply M22.ext' <;> simp [charP, Model.C17.layerP, M22.one, M22.smul]
   have key : ∀ H : M22 K, H = M22.smul (-1) (M22.one : M22 K) →
       prod (xs ++ H :: ys) = M22.smul (-1) (prod (xs ++ ys)) := by
     intro H hH
@@ -320,6 +385,116 @@ theorem energy_conservation_p (ls : List Layer) (h : ∀ l ∈ ls, l.ok) (n0 c0 
   simp only [Model.C17.rtot, Model.C17.ttot, ofInt_eq, Int.cast_one]
   exact rt_of_energy _ _ _ (by positivity) (amatP_energy m hm n0 c0 ne ce (by positivity))
 
+/-! ## the pipeline of `multilayer_stack_rt`, assembled from the translated call sites -/
+
+/-- a layer as the pipeline sees it: index, thickness, `cos θ_j`, `sin β_j`, `cos β_j` -/
+structure PLayer where
+  n : ℝ
+  d : ℝ
+  ct : ℝ
+  sb : ℝ
+  cb : ℝ
+
+def PLayer.toLayer (l : PLayer) : Layer := ⟨l.sb, l.cb, l.ct, l.n⟩
+
+/-- `(r, t)` as the source computes them: layer matrices by `stackLayerS`, their ordered product, `A` from the ambient medium
+and the first / last layer as the `fn2(...)` call site wires them, then `stackReturn` -/
+noncomputable def pipelineS (n0 c0 : ℝ) (ls : List PLayer) (h : ls ≠ []) : ℂ × ℂ :=
+  stackReturn (stackAmatS (n0 : ℂ) c0 (prod (ls.map fun l => stackLayerS (-I) (l.sb : ℂ) l.cb l.ct l.d l.n))
+    (ls.head h).n (ls.head h).ct (ls.getLast h).n (ls.getLast h).ct)
+
+noncomputable def pipelineP (n0 c0 : ℝ) (ls : List PLayer) (h : ls ≠ []) : ℂ × ℂ :=
+  stackReturn (stackAmatP (n0 : ℂ) c0 (prod (ls.map fun l => stackLayerP (-I) (l.sb : ℂ) l.cb l.ct l.d l.n))
+    (ls.head h).n (ls.head h).ct (ls.getLast h).n (ls.getLast h).ct)
+
+theorem pipelineS_eq (n0 c0 : ℝ) (ls : List PLayer) (h : ls ≠ []) :
+    pipelineS n0 c0 ls h =
+      (rtot (amatS (n0 : ℂ) c0 (prod (layersS (ls.map PLayer.toLayer))) (ls.getLast h).n (ls.getLast h).ct),
+       ttot (amatS (n0 : ℂ) c0 (prod (layersS (ls.map PLayer.toLayer))) (ls.getLast h).n (ls.getLast h).ct)) := by
+  have e : (ls.map fun l => stackLayerS (-I) (l.sb : ℂ) l.cb l.ct l.d l.n) = layersS (ls.map PLayer.toLayer) := by
+    simp only [layersS, List.map_map]; apply List.map_congr_left; intro l _
+    simp only [Function.comp, PLayer.toLayer, (gen_stack_layer _ _ _ (0 : ℂ) 0 _ _ _).1.2, gen_charS]
+  rw [pipelineS, e, (gen_stack_totals _).1, (gen_stack_amat _ _ _ _ _ _ _).1, ← gen_amatS,
+    ← (gen_rtot_ttot _).1, ← (gen_rtot_ttot _).2]
+
+theorem pipelineP_eq (n0 c0 : ℝ) (ls : List PLayer) (h : ls ≠ []) :
+    pipelineP n0 c0 ls h =
+      (rtot (amatP (n0 : ℂ) c0 (prod (layersP (ls.map PLayer.toLayer))) (ls.getLast h).n (ls.getLast h).ct),
+       ttot (amatP (n0 : ℂ) c0 (prod (layersP (ls.map PLayer.toLayer))) (ls.getLast h).n (ls.getLast h).ct)) := by
+  have e : (ls.map fun l => stackLayerP (-I) (l.sb : ℂ) l.cb l.ct l.d l.n) = layersP (ls.map PLayer.toLayer) := by
+    simp only [layersP, List.map_map]; apply List.map_congr_left; intro l _
+    simp only [Function.comp, PLayer.toLayer, (gen_stack_layer _ _ _ (0 : ℂ) 0 _ _ _).2.2, gen_charP]
+  rw [pipelineP, e, (gen_stack_totals _).1, (gen_stack_amat _ _ _ _ _ _ _).2, ← gen_amatP,
+    ← (gen_rtot_ttot _).1, ← (gen_rtot_ttot _).2]
+
+/-- energy conservation of the assembled pipeline: the exit medium IS the last layer, so the admittance factor is
+`n_last cos θ_last / (n₀ cos θ₀)`; any number of lossless layers, both polarisations -/
+theorem pipeline_energy (n0 c0 : ℝ) (ls : List PLayer) (h : ls ≠ []) (hok : ∀ l ∈ ls, l.toLayer.ok)
+    (hn0 : 0 < n0) (hc0 : 0 < c0) (hnl : 0 < (ls.getLast h).n) (hcl : 0 < (ls.getLast h).ct) :
+    (normSq (pipelineS n0 c0 ls h).1 +
+      ((ls.getLast h).n * (ls.getLast h).ct) / (n0 * c0) * normSq (pipelineS n0 c0 ls h).2 = 1) ∧
+    (normSq (pipelineP n0 c0 ls h).1 +
+      ((ls.getLast h).n * (ls.getLast h).ct) / (n0 * c0) * normSq (pipelineP n0 c0 ls h).2 = 1) := by
+  have hok' : ∀ l ∈ ls.map PLayer.toLayer, l.ok := by
+    intro l hl; obtain ⟨x, hx, rfl⟩ := List.mem_map.mp hl; exact hok x hx
+  rw [pipelineS_eq, pipelineP_eq]
+  exact ⟨energy_conservation_s _ hok' n0 c0 _ _ hn0 hc0 hnl hcl, energy_conservation_p _ hok' n0 c0 _ _ hn0 hc0 hnl hcl⟩
+
+/-- the phase thickness and the layer matrix are chained: with ANY functions `sinF`, `cosF` such that `sinF π = 0`,
+`cosF π = -1`, a layer of optical thickness `n d cos θ = λ/2` enters the pipeline as `-1`, and one of thickness `0`
+(`sinF 0 = 0`, `cosF 0 = 1`) as the identity -/
+theorem absentee_chain {K : Type} [Field K] [CharZero K] (sinF cosF : K → K) (mI pi lam d n cost : K) (hl : lam ≠ 0) :
+    (sinF pi = 0 → cosF pi = -1 → 2 * (n * d * cost) = lam →
+      stackLayerS mI (sinF (stackBetaS pi lam d n cost)) (cosF (stackBetaS pi lam d n cost)) cost d n
+        = M22.smul (-1) M22.one ∧
+      stackLayerP mI (sinF (stackBetaP pi lam d n cost)) (cosF (stackBetaP pi lam d n cost)) cost d n
+        = M22.smul (-1) M22.one) ∧
+    (sinF 0 = 0 → cosF 0 = 1 →
+      stackLayerS mI (sinF (stackBetaS pi lam 0 n cost)) (cosF (stackBetaS pi lam 0 n cost)) cost 0 n = M22.one ∧
+      stackLayerP mI (sinF (stackBetaP pi lam 0 n cost)) (cosF (stackBetaP pi lam 0 n cost)) cost 0 n = M22.one) := by
+  constructor
+  · intro hs hc h
+    have hb := beta_half_wave pi lam d n cost hl h
+    have eS : stackBetaS pi lam d n cost = pi := by
+      rw [(gen_stack_layer mI 0 0 pi lam d n cost).1.1, ← (gen_beta pi lam d n cost).2]; exact hb.2
+    have eP : stackBetaP pi lam d n cost = pi := by
+      rw [(gen_stack_layer mI 0 0 pi lam d n cost).2.1, ← (gen_beta pi lam d n cost).1]; exact hb.1
+    rw [eS, eP, hs, hc, (gen_stack_layer mI 0 (-1) pi lam d n cost).1.2, (gen_stack_layer mI 0 (-1) pi lam d n cost).2.2]
+    constructor <;> apply M22.ext' <;> simp [Model.C17.layerS, Model.C17.layerP, M22.one, M22.smul]
+  · intro hs hc
+    have hb := beta_zero_thickness pi lam n cost
+    have eS : stackBetaS pi lam 0 n cost = 0 := by
+      rw [(gen_stack_layer mI 0 0 pi lam 0 n cost).1.1, ← (gen_beta pi lam 0 n cost).2]; exact hb.2
+    have eP : stackBetaP pi lam 0 n cost = 0 := by
+      rw [(gen_stack_layer mI 0 0 pi lam 0 n cost).2.1, ← (gen_beta pi lam 0 n cost).1]; exact hb.1
+    rw [eS, eP, hs, hc, (gen_stack_layer mI 0 1 pi lam 0 n cost).1.2, (gen_stack_layer mI 0 1 pi lam 0 n cost).2.2]
+    constructor <;> apply M22.ext' <;> simp [Model.C17.layerS, Model.C17.layerP, M22.one]
+
+/-- Brewster's angle for the STACK: a one-layer p-polarised stack (any thickness) on a substrate of the same index has
+`r = 0` when `tan θ₀ = n₁/n₀` and `θ₁` follows from the Snell relation the pipeline uses -/
+theorem brewster_zero_stack (n0 n1 c0 s0 c1 s1 d sb cb : ℝ) (hn0 : 0 < n0) (hn1 : 0 < n1) (hc0 : 0 < c0)
+    (h0 : c0 ^ 2 + s0 ^ 2 = 1) (h1 : c1 ^ 2 + s1 ^ 2 = 1) (hs0 : 0 ≤ s0) (hc1 : 0 < c1) (hb : sb ^ 2 + cb ^ 2 = 1)
+    (snell : s1 = stackSnellSin n0 s0 n1) (brewster : s0 * brewsterX n0 n1 = c0 * brewsterY n0 n1) :
+    (pipelineP n0 c0 [⟨n1, d, c1, sb, cb⟩] (by simp)).1 = 0 := by
+  have sn : s1 = snellSin n0 n1 s0 := by
+    rw [snell, (gen_stack_snell n0 s0 n1).1, (gen_angles n0 n1 s0).1]
+  have hz := brewster_zero n0 n1 c0 s0 c1 s1 (ne_of_gt hn1) h0 h1 hs0 (le_of_lt hc1) sn brewster
+  have hd : (n0 : ℂ) * c1 + n1 * c0 ≠ 0 := by
+    have : (0 : ℝ) < n0 * c1 + n1 * c0 := by positivity
+    exact_mod_cast ne_of_gt this
+  have h00 : (n0 : ℂ) * c0 ≠ 0 := by
+    have : (0 : ℝ) < n0 * c0 := by positivity
+    exact_mod_cast ne_of_gt this
+  have hbC : (sb : ℂ) ^ 2 + (cb : ℂ) ^ 2 = 1 := by exact_mod_cast hb
+  have key := (single_layer_eq_fresnel_p (-I) (sb : ℂ) cb n0 n1 c0 c1 (by simp) hbC h00
+    (by exact_mod_cast ne_of_gt hn1) (by exact_mod_cast ne_of_gt hc1) hd).1
+  rw [pipelineP_eq]
+  simp only [List.map, layersP, PLayer.toLayer, List.getLast_singleton] at key ⊢
+  rw [key]
+  have cast : fresnelRp (n0 : ℂ) n1 c0 c1 = ((fresnelRp n0 n1 c0 c1 : ℝ) : ℂ) := by
+    c17_unfold; push_cast; ring
+  rw [cast, hz]; simp
+
 /-! ## absorbing layers: `R + T ≤ 1`  (the [stretch] item of the design — proved in full) -/
 
 /-- an absorbing (or lossless) layer: complex index `n`, complex `cos θ`, scaled thickness `κ = 2π d / λ` -/
@@ -336,7 +511,7 @@ def AbsLayer.ok (l : AbsLayer) (σ : ℝ) : Prop :=
 /-- the phase thickness the code computes is `κ · (n cos θ)` with `κ = 2π d / λ` -/
 theorem beta_eq_kappa {K : Type} [Field K] (pi lam d n cost : K) :
     betaS pi lam d n cost = (2 * pi * d / lam) * (n * cost) ∧ betaP pi lam d n cost = (2 * pi * d / lam) * (n * cost) := by
-  constructor <;> simp only [betaS, betaP, ofInt_eq] <;> push_cast <;> ring
+  constructor <;> c17_unfold <;> push_cast <;> ring
 
 /-- the characteristic matrices the code builds for such layers (`sin`, `cos` are the complex functions) -/
 noncomputable def absLayersS (ls : List AbsLayer) : List (M22 ℂ) :=
@@ -402,6 +577,6 @@ example : (AbsLayer.mk (2 + I) 1 3).ok 0 := by
 /-- Brewster hypotheses at `n₀ = 1`, `n₁ = 4/3`: `tan θ₀ = 4/3` (`cos θ₀ = 3/5`), refraction at `cos θ₁ = 4/5` -/
 example : fresnelRp (1 : ℝ) (4 / 3) (3 / 5) (4 / 5) = 0 :=
   brewster_zero 1 (4 / 3) (3 / 5) (4 / 5) (4 / 5) (3 / 5) (by norm_num) (by norm_num) (by norm_num) (by norm_num)
-    (by norm_num) (by simp only [snellSin]; norm_num) (by simp only [brewsterX, brewsterY]; norm_num)
+    (by norm_num) (by simp only [snellSin, Model.C17.snellSin]; norm_num) (by simp only [brewsterX, brewsterY]; norm_num)
 
 end C17
